@@ -30,14 +30,13 @@ theorem NoSetItemK.append {k : Hash} {l : List BufElem} {e : BufElem} (h : NoSet
   · exact h e' h1
   · simp at h1; subst h1; exact he
 
-/-- pcs of a client inside a `Set` of key `k` -/
+/-- pcs of a client inside a `Set` of key `k`, up to and including its buffer send (the two
+return pcs `setRetTrue`/`setRetDrop` no longer touch the cache and are not counted) -/
 def CPc.inSetK (k : Hash) : CPc → Prop
   | .setStart h _ _ _ _ => h = k
   | .setUpd i => i.key = k
   | .setExit i _ => i.key = k
   | .setSend i => i.key = k
-  | .setRetTrue i => i.key = k
-  | .setRetDrop i => i.key = k
   | _ => False
 
 /-- no client is inside a `Set` of `k` -/
@@ -72,19 +71,31 @@ theorem ClrKeep.recv {s s1 : State} {x : BufElem} (hr : recvBuf s = some (x, s1)
   · exact e
   · rw [e]; cases hpc : s.cl t <;> simp [hpc, CPc.clrWit, unblockedPc] at ht ⊢
 
-/-- absent stays absent (given that no `Set`-item of `k` is pending) -/
+/-- the applier does not hold a `Set`-item of `k` -/
+def HeldNotSetK (k : Hash) (s : State) : Prop := ∀ e, appElem s.app = some e → ¬ e.isSetK k
+
+theorem NoSetItemK.held {k : Hash} {s : State} (h : NoSetItemK k (pending s)) : HeldNotSetK k s := by
+  intro e he
+  exact h e (by simp [pending, he])
+
+/-- absent stays absent (given that the applier does not hold a `Set`-item of `k`) -/
 def Keeps (k : Hash) (s s' : State) : Prop :=
-  NoSetItemK k (pending s) →
+  HeldNotSetK k s →
     (s.store.lookup k = none → s'.store.lookup k = none) ∧
     (s.pol.costs.lookup k = none → s'.pol.costs.lookup k = none)
 
 theorem Keeps.of_eq {k : Hash} {s s' : State} (h1 : s'.store = s.store) (h2 : s'.pol.costs = s.pol.costs) :
     Keeps k s s' := fun _ => ⟨fun h => by rw [h1]; exact h, fun h => by rw [h2]; exact h⟩
 
+/-- who appends `e`: a `Set`'s send, a `Del`'s send or a `Wait`'s send -/
+def PushSrc (s : State) (e : BufElem) : Prop :=
+  (∃ t i, s.cl t = .setSend i ∧ e = .item i) ∨ (∃ t h c, s.cl t = .delSend h c ∧ e = tomb h c) ∨
+  e = .marker s.nextMarker
+
 inductive KStep (k : Hash) (s s' : State) : Prop
   | quiet (hp : pending s' = pending s) (hk : Keeps k s s') (hcl : ClrKeep s s')
-  | push (e : BufElem) (he : ¬ e.isSetK k) (hp : pending s' = pending s ++ [e]) (hk : Keeps k s s')
-      (hcl : ClrKeep s s')
+  | push (e : BufElem) (he : ¬ e.isSetK k) (hsrc : PushSrc s e) (hp : pending s' = pending s ++ [e])
+      (hk : Keeps k s s') (hcl : ClrKeep s s')
   | recost (i : Item) (c : Int) (r : List BufElem) (hp : pending s = .item i :: r)
       (hp' : pending s' = .item { i with cost := c } :: r) (hk : Keeps k s s') (hcl : ClrKeep s s')
   | popNonTomb (x : BufElem) (hp : pending s = x :: pending s') (hx : ¬ x.isTombK k) (hk : Keeps k s s')
@@ -176,15 +187,15 @@ theorem kstep_clientStep {cfg : Cfg} {s s' : State} {t : Tid} {ch : Choice} (k :
     have hcl : ClrKeep s (stSetSend cfg s t i) :=
       ClrKeep.of_ne t (fun _ hne => stSetSend_cl_ne (hne := hne) ..) (by simp [hpc, CPc.clrWit])
     rcases set_send_pending cfg s t i with ⟨hp, _⟩ | ⟨hp, _⟩
-    · exact .push (.item i) (by simp [BufElem.isSetK, hik]) hp (Keeps.of_eq (by simp) (by simp)) hcl
+    · exact .push (.item i) (by simp [BufElem.isSetK, hik]) (Or.inl ⟨t, i, hpc, rfl⟩) hp (Keeps.of_eq (by simp) (by simp)) hcl
     · exact .quiet hp (Keeps.of_eq (by simp) (by simp)) hcl
   case delSend =>
     intro h' c hpc _
-    exact .push (tomb h' c) (by simp [tomb, BufElem.isSetK]) (tomb_enqueued ..) (Keeps.of_eq (by simp) (by simp))
+    exact .push (tomb h' c) (by simp [tomb, BufElem.isSetK]) (Or.inr (Or.inl ⟨t, h', c, hpc, rfl⟩)) (tomb_enqueued ..) (Keeps.of_eq (by simp) (by simp))
       (ClrKeep.of_ne t (fun _ hne => stDelSend_cl_ne (hne := hne) ..) (by simp [hpc, CPc.clrWit]))
   case waitSend =>
     intro hpc _
-    exact .push (.marker s.nextMarker) (by simp [BufElem.isSetK]) (marker_enqueued ..) (Keeps.of_eq (by simp) (by simp))
+    exact .push (.marker s.nextMarker) (by simp [BufElem.isSetK]) (Or.inr (Or.inr rfl)) (marker_enqueued ..) (Keeps.of_eq (by simp) (by simp))
       (ClrKeep.of_ne t (fun _ hne => stWaitSend_cl_ne (hne := hne) ..) (by simp [hpc, CPc.clrWit]))
   case waitRecv =>
     intro id hpc _ hr
@@ -303,7 +314,7 @@ theorem kstep_applierStep {cfg : Cfg} {s s' : State} {ch : Choice} (k : Hash)
             (ClrKeep.of_eq rfl)
           have hik : k ≠ i.key := by
             intro e
-            exact hno _ hmem ⟨e.symm, by simp [hflag]⟩
+            exact hno (.item i) (by rw [hpc]; rfl) ⟨e.symm, by simp [hflag]⟩
           exact polAdd_none hadd hik h
       · simp at hr
     · rename_i hflag
@@ -315,7 +326,7 @@ theorem kstep_applierStep {cfg : Cfg} {s s' : State} {ch : Choice} (k : Hash)
     · obtain ⟨_, hr⟩ := needNone_some hr
       simp only [Option.some.injEq] at hr; subst hr
       exact .quiet (pending_congr (by simp [hpc, apCostedDel, appElem]) rfl rfl)
-        (fun _ => ⟨fun h => h, fun h => by simp only [apCostedDel]; exact polDel_none h⟩) (ClrKeep.of_eq rfl)
+        (fun _ => ⟨fun h => h, fun h => by simp only [apCostedDel]; exact polDel_none_f h⟩) (ClrKeep.of_eq rfl)
   case added =>
     intro i victims ok hpc _
     have hnew := hi.added_new i victims ok hpc
@@ -328,7 +339,7 @@ theorem kstep_applierStep {cfg : Cfg} {s s' : State} {ch : Choice} (k : Hash)
       (ClrKeep.of_eq (by simp))
     have hik : k ≠ i.key := by
       intro e
-      exact hno _ hmem ⟨e.symm, by simp [hnew]⟩
+      exact hno (.item i) (by rw [hpc]; rfl) ⟨e.symm, by simp [hnew]⟩
     unfold apAdded
     split
     · simp only [metAdd_store]
@@ -367,7 +378,7 @@ theorem kstep_applierStep {cfg : Cfg} {s s' : State} {ch : Choice} (k : Hash)
     · refine .popNonTomb (.item i) hp (by simp [BufElem.isTombK, hik]) (fun _ => ⟨fun h => ?_, fun h => h⟩)
         (ClrKeep.of_eq rfl)
       show (storeDel s.store s.em i.key i.conflict).1.lookup k = none
-      rw [storeDel_lookup_ne _ _ _ (fun e => hik e.symm)]; exact h
+      rw [storeDel_lookup_ne_f _ _ _ (fun e => hik e.symm)]; exact h
   case tombStore =>
     intro v hpc _
     exact .quiet (pending_congr (by simp [hpc, apTombStore, appElem]) rfl rfl) (Keeps.of_eq rfl rfl) (ClrKeep.of_eq rfl)
@@ -400,7 +411,7 @@ theorem kstep_applierStep {cfg : Cfg} {s s' : State} {ch : Choice} (k : Hash)
   case swStoreDel =>
     intro now k' c expr v bs hpc _
     exact .quiet (pending_congr (by simp [hpc, apSwStoreDel, appElem]) rfl rfl)
-      (fun _ => ⟨fun h => h, fun h => by simp only [apSwStoreDel]; exact polDel_none h⟩) (ClrKeep.of_eq rfl)
+      (fun _ => ⟨fun h => h, fun h => by simp only [apSwStoreDel]; exact polDel_none_f h⟩) (ClrKeep.of_eq rfl)
   case swPolDel =>
     intro now k' c expr cost v bs hpc _
     exact .quiet (pending_congr (by simp [hpc, apSwPolDel, appElem]) rfl rfl) (Keeps.of_eq rfl rfl) (ClrKeep.of_eq rfl)
